@@ -3822,3 +3822,156 @@ func isPrecisionVar(info *types.Info, e ast.Expr) bool {
 	o := core.ObjOf(info, id)
 	return o != nil && o.Name() == "Precision" && o.Pkg() != nil && o.Pkg().Path() == core.Module && o.Parent() == o.Pkg().Scope()
 }
+
+// E11StateSliceReuse: the SVG importer does not refill a slice of the drawing state in place.
+func E11StateSliceReuse(c *core.Ctx, r *core.Report) {
+	r.Rule("E11.state-slice-reuse", "svg.go: the drawing state (Context.Style, saved by value on Push for every nested element) shares the backing arrays of its slices with the saved copies. No statement resets a slice-typed field with the capacity-keeping `F = F[:0]` (or builds on `F[:0]`): the values appended afterwards overwrite what the saved parent state still refers to, so after the element is closed the group's dash pattern has the child's values. Every assignment to a slice field in the file is examined")
+	p := c.MustPkg("")
+	info := p.TypesInfo
+	n := 0
+	for _, fd := range core.AllFuncDecls(p) {
+		if fd.Body == nil || !strings.HasSuffix(c.Fset.Position(fd.Pos()).Filename, "/svg.go") {
+			continue
+		}
+		fname := "canvas." + core.FuncName(fd)
+		ord := 0
+		ast.Inspect(fd.Body, func(m ast.Node) bool {
+			as, ok := m.(*ast.AssignStmt)
+			if !ok {
+				return true
+			}
+			for i, l := range as.Lhs {
+				sel, ok := core.Unparen(l).(*ast.SelectorExpr)
+				if !ok || i >= len(as.Rhs) {
+					continue
+				}
+				s := info.Selections[sel]
+				if s == nil || s.Kind() != types.FieldVal {
+					continue
+				}
+				if _, isSlice := s.Obj().Type().Underlying().(*types.Slice); !isSlice {
+					continue
+				}
+				n++
+				ord++
+				key := fmt.Sprintf("%s|slice field %s assignment #%d", fname, sel.Sel.Name, ord)
+				lhs := types.ExprString(sel)
+				bad := false
+				ast.Inspect(as.Rhs[i], func(k ast.Node) bool {
+					if se, ok := k.(*ast.SliceExpr); ok && !se.Slice3 && types.ExprString(se.X) == lhs {
+						if hv, ok := core.ConstInt(info, se.High); ok && hv == 0 {
+							bad = true
+						}
+					}
+					return true
+				})
+				if bad {
+					r.Fail("E11.state-slice-reuse", key, c.Pos(as.Pos()), fmt.Sprintf("`%s` keeps the backing array of `%s`, which the states saved by Push still refer to: what is appended next overwrites the parent element's values", c.Src(as), lhs))
+				} else {
+					r.OK("E11.state-slice-reuse", key, c.Pos(as.Pos()), "")
+				}
+			}
+			return true
+		})
+	}
+	r.Count("E11.slice-field-assignments", n)
+	r.Floor("E11.slice-field-assignments", 3)
+}
+
+// E11ReflectCurrentImage: the upright compensation of an image reflects about the image that is drawn.
+func E11ReflectCurrentImage(c *core.Ctx, r *core.Report) {
+	r.Rule("E11.reflect-image", "Context.DrawImage and Context.FitImage keep an image upright in flipped coordinate systems by reflecting about half the height/width of the image they hand to RenderImage. The argument of ReflectYAbout/ReflectXAbout is computed from that image variable as it is at the call: either it calls Bounds() on it directly, or every local it uses was computed from the image after the image variable's last assignment (FitImage's Cover strategy replaces the image by a cropped sub-image; a size taken before the crop shifts the image by the cropped amount)")
+	p := c.MustPkg("")
+	info := p.TypesInfo
+	n := 0
+	for _, fname := range []string{"Context.DrawImage", "Context.FitImage"} {
+		fd := core.MustFuncDecl(p, fname)
+		r.Func("canvas." + fname)
+		// the image variable: first argument of RenderImage
+		var img types.Object
+		ast.Inspect(fd.Body, func(m ast.Node) bool {
+			if call, ok := m.(*ast.CallExpr); ok && len(call.Args) == 2 {
+				if se, ok := call.Fun.(*ast.SelectorExpr); ok && se.Sel.Name == "RenderImage" {
+					if id, ok := core.Unparen(call.Args[0]).(*ast.Ident); ok {
+						img = core.ObjOf(info, id)
+					}
+				}
+			}
+			return true
+		})
+		if img == nil {
+			r.Fail("E11.reflect-image", "canvas."+fname+"|image variable", c.Pos(fd.Pos()), "the call of RenderImage was not found")
+			continue
+		}
+		// positions of assignments to img
+		var imgAssigns []token.Pos
+		ast.Inspect(fd.Body, func(m ast.Node) bool {
+			if as, ok := m.(*ast.AssignStmt); ok {
+				for _, l := range as.Lhs {
+					if id, ok := l.(*ast.Ident); ok && core.ObjOf(info, id) == img {
+						imgAssigns = append(imgAssigns, as.Pos())
+					}
+				}
+			}
+			return true
+		})
+		ord := 0
+		ast.Inspect(fd.Body, func(m ast.Node) bool {
+			call, ok := m.(*ast.CallExpr)
+			if !ok || len(call.Args) != 1 {
+				return true
+			}
+			se, ok := call.Fun.(*ast.SelectorExpr)
+			if !ok || (se.Sel.Name != "ReflectYAbout" && se.Sel.Name != "ReflectXAbout") {
+				return true
+			}
+			n++
+			ord++
+			key := fmt.Sprintf("canvas.%s|%s #%d reflects about the image that is drawn", fname, se.Sel.Name, ord)
+			bad := ""
+			ast.Inspect(call.Args[0], func(k ast.Node) bool {
+				id, ok := k.(*ast.Ident)
+				if !ok {
+					return true
+				}
+				o := core.ObjOf(info, id)
+				if o == nil || o == img {
+					return true
+				}
+				v, isVar := o.(*types.Var)
+				if !isVar || v.IsField() || v.Parent() == p.Types.Scope() || v.Parent() == types.Universe {
+					return true
+				}
+				// last definition of the local before the call
+				var def *ast.AssignStmt
+				ast.Inspect(fd.Body, func(q ast.Node) bool {
+					if as, ok := q.(*ast.AssignStmt); ok && as.Pos() < call.Pos() {
+						for _, l := range as.Lhs {
+							if lid, ok := l.(*ast.Ident); ok && core.ObjOf(info, lid) == o {
+								def = as
+							}
+						}
+					}
+					return true
+				})
+				if def == nil {
+					return true
+				}
+				for _, ap := range imgAssigns {
+					if def.Pos() < ap && ap < call.Pos() && bad == "" {
+						bad = fmt.Sprintf("`%s` was computed at %s, before the image variable is replaced at %s", id.Name, c.Pos(def.Pos()), c.Pos(ap))
+					}
+				}
+				return true
+			})
+			if bad == "" {
+				r.OK("E11.reflect-image", key, c.Pos(call.Pos()), types.ExprString(call.Args[0]))
+			} else {
+				r.Fail("E11.reflect-image", key, c.Pos(call.Pos()), bad+": the reflection is about the centre of the uncropped image")
+			}
+			return true
+		})
+	}
+	r.Count("E11.image-reflections", n)
+	r.Floor("E11.image-reflections", 4)
+}
